@@ -71,11 +71,12 @@ ArrayLikes == {ObjR(b, l) : b \in Bases, l \in LikeLens}
                 \cup {[ObjR(b, LenSet(IntV(2))) EXCEPT !.inh = <<[n |-> NameOfIdx(1), v |-> StrV(S_P)]>>] : b \in {<<El(V1)>>, <<Hole, Hole>>}}
                 \cup {[ObjR(b, LenSet(IntV(2))) EXCEPT !.ext = x] : b \in {<<El(V1), El(V2)>>, <<Hole, El(V1)>>}, x \in {"nonext", "frozen"}}
 
-(* auxiliary objects of every case: 4 = the array [7, , ] (trailing hole), 5 = the array-like {0:"x", length:1}, *)
+(* auxiliary objects of a case: 4 = the array [7, , ] (trailing hole), 5 = the array-like {0:"x", length:1}, *)
 (* 6 = a plain object used as thisArg                                                                            *)
 S_x1 == <<120>>
 Aux == <<ArrR(<<El(V7), Hole>>), ObjR(<<El(StrV(S_x1))>>, LenSet(IntV(1))), ObjR(<<>>, NoLen)>>
 Ref(i) == [t |-> "ref", id |-> i]
+NeedsAux(args) == \E i \in 1..Len(args) : args[i].t = "ref" /\ args[i].id > 3      \* built only for the calls that mention them
 
 -----------------------------------------------------------------------------
 (* calls                                                                     *)
@@ -99,15 +100,16 @@ SimpleCalls ==
 
 (* sort is judged on receivers for which 15.4.4.11 fixes the result *)
 Sortable(r) == /\ r.ext = "ext" /\ r.inh = <<>> /\ r.lw /\ r.extra = <<>>
-               /\ \A i \in 1..Len(r.elems) : r.elems[i].h \/ (r.elems[i].w /\ r.elems[i].e /\ r.elems[i].c)
+               /\ \A i \in 1..Len(r.elems) : r.elems[i].h \/ (r.elems[i].w /\ r.elems[i].e /\ r.elems[i].c /\ r.elems[i].v.t # "cobj")
                /\ (r.cls = "Array" \/ r.len.k = "auto" \/ (r.len.w /\ r.len.v.t = "num"))
 SortCallsNum == {C("sort", a) : a \in {<<>>, <<Undef>>, <<CmpAsc>>, <<CmpDesc>>}}
 SortCallsStr == {C("sort", a) : a \in {<<>>, <<Undef>>}}
 SortEltsMixed == {El(IntV(2)), El(IntV(10)), El(StrV(S_b)), El(Undef), Hole, El(V1)}
 SortEltsNum == {El(IntV(2)), El(IntV(10)), El(Undef), Hole, El(V1), El(IntV(-3))}
 SortN == IF Deep THEN 5 ELSE 4
-SortRecvMixed == {ArrR(e) : e \in UNION {[1..n -> SortEltsMixed] : n \in 0..SortN}}
-SortRecvNum == {ArrR(e) : e \in UNION {[1..n -> SortEltsNum] : n \in 0..SortN}}
+(* TLC evaluates every constant definition at start-up: the large ones are guarded by the families that use them *)
+SortRecvMixed == IF "sortstr" \in Fams THEN {ArrR(e) : e \in UNION {[1..n -> SortEltsMixed] : n \in 0..SortN}} ELSE {}
+SortRecvNum == IF "sortnum" \in Fams THEN {ArrR(e) : e \in UNION {[1..n -> SortEltsNum] : n \in 0..SortN}} ELSE {}
 
 (* callbacks *)
 CbConst(v) == [t |-> "cb", k |-> "const", v |-> v]
@@ -179,23 +181,23 @@ CtorRecv == {ArrR(<<El(V1)>>), ObjR(<<El(V1)>>, LenSet(IntV(1)))}
 (* families: receivers x calls.  Each sequence is a zero-arity constant definition so that TLC  *)
 (* evaluates it once.                                                                         *)
 AllArrays == PlainArrays \cup VariantArrays
-R_plain   == SetToSeq(PlainArrays)
-R_all     == SetToSeq(AllArrays \cup ArrayLikes)
-R_var     == SetToSeq(VariantArrays \cup ArrayLikes)
-R_sortnum == SetToSeq(SortRecvNum)
-R_sortstr == SetToSeq(SortRecvMixed \cup {r \in ArrayLikes : Sortable(r)})
+R_plain   == IF "slice" \in Fams \/ "splice" \in Fams THEN SetToSeq(PlainArrays) ELSE <<>>
+R_all     == IF "index" \in Fams \/ "simple" \in Fams \/ "iter" \in Fams THEN SetToSeq(AllArrays \cup ArrayLikes) ELSE <<>>
+R_var     == IF "range2" \in Fams THEN SetToSeq(VariantArrays \cup ArrayLikes) ELSE <<>>
+R_sortnum == IF "sortnum" \in Fams THEN SetToSeq(SortRecvNum) ELSE <<>>
+R_sortstr == IF "sortstr" \in Fams THEN SetToSeq(SortRecvMixed \cup {r \in ArrayLikes : Sortable(r)}) ELSE <<>>
 R_conv    == SetToSeq(ConvRecv)
 R_big     == SetToSeq(BigRecv)
 R_ctor    == SetToSeq(CtorRecv)
-C_slice   == SetToSeq(SliceCalls(ArgVals))
-C_splice  == SetToSeq(SpliceCalls(ArgVals))
-C_index   == SetToSeq(IndexCalls(ArgVals))
-C_range2  == SetToSeq(SliceCalls(ArgValsSmall) \cup SpliceCalls(ArgValsSmall))
-C_simple  == SetToSeq(SimpleCalls)
+C_slice   == IF "slice" \in Fams THEN SetToSeq(SliceCalls(ArgVals)) ELSE <<>>
+C_splice  == IF "splice" \in Fams THEN SetToSeq(SpliceCalls(ArgVals)) ELSE <<>>
+C_index   == IF "index" \in Fams THEN SetToSeq(IndexCalls(ArgVals)) ELSE <<>>
+C_range2  == IF "range2" \in Fams THEN SetToSeq(SliceCalls(ArgValsSmall) \cup SpliceCalls(ArgValsSmall)) ELSE <<>>
+C_simple  == IF "simple" \in Fams THEN SetToSeq(SimpleCalls) ELSE <<>>
 C_sortnum == SetToSeq(SortCallsNum)
 C_sortstr == SetToSeq(SortCallsStr)
-C_iter    == SetToSeq(IterCalls)
-C_conv    == SetToSeq(ConvCalls)
+C_iter    == IF "iter" \in Fams THEN SetToSeq(IterCalls) ELSE <<>>
+C_conv    == IF "conv" \in Fams THEN SetToSeq(ConvCalls) ELSE <<>>
 C_big     == SetToSeq(BigCalls)
 C_ctor    == SetToSeq(CtorCalls)
 RecvOf(f) ==
@@ -249,7 +251,9 @@ HugeShrink(H, a) ==
 None == [fam |-> "none"]
 HistStep(a) ==
     LET rs == S!StepOutcome(heap, a)
-        rd == L!StepOutcome(heap, a)
+        \* what the implementation with its known deviations does: the whole history is run with the
+        \* deviating instance (its heap differs from the strict one once a deviation was exercised)
+        rd == L!StepOutcome(L!RunPath(L!Mk(L!HistHeap0, <<>>), hist, 1).H, a)
     IN  /\ ~HugeShrink(heap, a)
         /\ heap' = rs.H
         /\ hist' = Append(hist, a)
@@ -271,7 +275,8 @@ Next == IF Fams = {"hist"}
              /\ UNCHANGED <<blk, heap, hist>>
              /\ LET calls == CallsOf(blk[1]) IN
                 \E j \in Sub(1..Len(calls)) :
-                   cs' = [fam |-> blk[1], objs |-> <<RecvOf(blk[1])[blk[2]]>> \o Aux, m |-> calls[j].m, args |-> calls[j].args]
+                   cs' = [fam |-> blk[1], m |-> calls[j].m, args |-> calls[j].args,
+                          objs |-> <<RecvOf(blk[1])[blk[2]]>> \o (IF NeedsAux(calls[j].args) THEN Aux ELSE <<>>)]
 
 Applicable(c) == c.m # "sort" \/ (Sortable(c.objs[1]))
 
